@@ -141,7 +141,7 @@ def replay_cases(ctx, chib, gcc, cases, prop="C09"):
     ok = [c for c in cases if c["class"] == "ok" and c["fam"] != "F6"]
     single = [c for c in cases if c["class"] == "ok" and c["fam"] == "F6"]
     diag = [c for c in cases if c["class"] == "diag"]
-    diag = vt.subsample(diag, ctx.seed, 5 if ctx.quick else 7)
+    diag = vt.subsample(diag, ctx.seed, 5 if ctx.quick else 1)      # thorough: every one (the quick samples are subsets)
     res = chib.run_cases(ok)
     res.update(chib.run_cases(single + diag, single=True))
     n = 0
